@@ -296,6 +296,8 @@ func TestScripts(t *testing.T) {
 			tr = runTunnelScript(t, line)
 		case strings.HasPrefix(line, "rtr "):
 			tr = runRouterScript(t, line)
+		case strings.HasPrefix(line, "sw "):
+			tr = runSWScript(t, line)
 		default:
 			tr = "bad-op"
 		}
